@@ -288,7 +288,7 @@ def _gen_section(
             lines.append("@extent %d * 8" % (bits // 8 + r.choice([0, 0, 1, 7, 64])))
             bits = max(bits, bits + 64 * 8)
     if r.chance(1, 6):
-        lines.append("@assert _offset_.max >= 0")
+        lines.append("@assert 2 * 2 == 4")  # (_offset_ makes pydsdl expand the bit length set numerically: seconds per type)
     return lines, deps, bits
 
 
